@@ -140,6 +140,10 @@ type CronJob struct {
 
 	// Err holds the error returned by the last invocation of Fn.
 	Err error
+
+	// cancelled is set when the job is removed (or replaced)
+	// while it is running, so that it isn't scheduled again.
+	cancelled bool
 }
 
 // Timeline is the time-order list of pending CronJobs.
@@ -185,6 +189,10 @@ type Cron struct {
 
 	// The approximate maximum number pending jobs.
 	Limit int
+
+	// running holds the jobs that are currently executing (and
+	// therefore not in the Timeline), by id.
+	running map[string]*CronJob
 }
 
 // NewCron creates a new Cron instanced.
@@ -204,7 +212,8 @@ func NewCron(broadcaster *CronBroadcaster, pause time.Duration, name string, lim
 		time.Now(),
 		pause,
 		name,
-		limit}
+		limit,
+		make(map[string]*CronJob)}
 
 	return c, nil
 }
@@ -352,11 +361,15 @@ LOOP:
 				if ready {
 					// Danger.  ToDo: Be more careful
 					c.Timeline = c.Timeline[1:]
+					c.running[job.Id] = job
 					go func(job *CronJob) {
 						c.run(ctx, job)
 					}(job)
-					c.resetTimer()
 				}
+				// Whether or not we ran something, wait
+				// for what is now the first job (the head
+				// can have changed since the timer was set).
+				c.resetTimer()
 			}
 			c.Unlock()
 			// elapsed := time.Now().Sub(now)
@@ -383,11 +396,19 @@ func (c *Cron) run(ctx *core.Context, job *CronJob) {
 	if err != nil {
 		job.Err = err
 	}
-	if once {
-	} else {
-		// ToDo: Consider an error here.
-		c.schedule(ctx, job, false)
+	c.Lock()
+	if c.running[job.Id] == job {
+		delete(c.running, job.Id)
 	}
+	if once || job.cancelled {
+		// A job that was removed or replaced while it was
+		// running must not come back.
+	} else {
+		// Schedule the next occurrence (without a limit check).
+		job.Next = job.Expression.Next(time.Now().UTC())
+		c.insert(ctx, job)
+	}
+	c.Unlock()
 }
 
 func (c *Cron) stopTimer() {
@@ -553,8 +574,16 @@ func (c *Cron) rem(ctx *core.Context, id string) (bool, error) {
 			break
 		}
 	}
-	if !found {
-		// log.Printf("Cron.Rem %p %s job %s not found", c, c.Name, id)
+	if job, running := c.running[id]; running {
+		// The job is executing right now: make sure it
+		// doesn't schedule itself again.
+		job.cancelled = true
+		delete(c.running, id)
+		found = true
+	}
+	if found {
+		// The head of the timeline might have changed.
+		c.resetTimer()
 	}
 	return found, nil
 }
